@@ -47,6 +47,9 @@ type Job struct {
 	// the environment's compute unit) stores its pattern into [Off, Off+Len);
 	// the stores sit dirty in the environment's write-back cache until a flush.
 	Kernel bool `json:"kernel,omitempty"`
+	// Phase: the job is enqueued only when everything of the earlier phases has completed and the world is quiet
+	// (a queue that has already executed commands when a new batch arrives)
+	Phase int `json:"phase,omitempty"`
 }
 
 type Cfg struct {
@@ -61,8 +64,11 @@ type Cfg struct {
 	// QueueCtx: context of every queue (index; 0 = the first context, k > 0 =
 	// the k-th sibling made with InitWithExistingPID). nil = all in context 0.
 	QueueCtx []int `json:"queue_ctx,omitempty"`
-	NoStall  bool  `json:"-"`
-	NoDelays bool  `json:"-"`
+	// SlowMem > 0: the memory below the DMA engine takes one transaction per SlowMem cycles (a memory clocked below
+	// the engine, or busy with other traffic), so the engine's 64-entry outgoing buffer fills up and Send is refused
+	SlowMem  int  `json:"slow_memory_every,omitempty"`
+	NoStall  bool `json:"-"`
+	NoDelays bool `json:"-"`
 }
 
 // envCU is the compute unit the environment plays (resources of a GCN3 CU).
@@ -298,6 +304,9 @@ func Body(c Cfg) explore.Body {
 				tx.p.answered++
 			}
 			sk := &world.Sink{W: w, Port: d.ToMem, Tag: fmt.Sprintf("mem%d", g+1), StallAlphabet: []int{1, 4}, NoChoice: c.NoStall}
+			if c.SlowMem > 0 {
+				sk.Every, sk.NoChoice = c.SlowMem, true
+			}
 			sk.Handle = func(m sim.Msg) {
 				switch r := m.(type) {
 				case *mem.WriteReq:
@@ -504,27 +513,39 @@ func Body(c Cfg) explore.Body {
 			queues = append(queues, drv.CreateCommandQueue(ctxs[ci]))
 		}
 		outs := make([][]byte, len(c.Jobs))
-		for i, j := range c.Jobs {
+		phases := 0
+		for _, j := range c.Jobs {
 			cmds = append(cmds, &cmdState{job: j})
-			if j.Kernel {
-				co := &insts.KernelCodeObject{KernelCodeObjectMeta: &insts.KernelCodeObjectMeta{}}
-				co.WFSgprCount, co.WIVgprCount = 16, 8
-				pk := &kernels.HsaKernelDispatchPacket{WorkgroupSizeX: 64, WorkgroupSizeY: 1, WorkgroupSizeZ: 1, GridSizeX: 64, GridSizeY: 1, GridSizeZ: 1}
-				kernelOfPacket[pk] = i
-				// what EnqueueLaunchKernel enqueues last (its three preparatory H2D
-				// copies of code object, arguments and packet are left out: the
-				// environment's compute unit does not read them)
-				drv.Enqueue(queues[j.Queue], &driver.LaunchKernelCommand{ID: sim.GetIDGenerator().Generate(), CodeObject: co, Packet: pk})
-				continue
-			}
-			if j.H2D {
-				drv.EnqueueMemCopyH2D(queues[j.Queue], driver.Ptr(ptr+j.Off), hostBytes(i, j.Len))
-			} else {
-				outs[i] = make([]byte, j.Len)
-				drv.EnqueueMemCopyD2H(queues[j.Queue], outs[i], driver.Ptr(ptr+j.Off))
+			if j.Phase > phases {
+				phases = j.Phase
 			}
 		}
-		drv.TickLater()
+		enqueuePhase := func(phase int) {
+			for i, j := range c.Jobs {
+				if j.Phase != phase {
+					continue
+				}
+				if j.Kernel {
+					co := &insts.KernelCodeObject{KernelCodeObjectMeta: &insts.KernelCodeObjectMeta{}}
+					co.WFSgprCount, co.WIVgprCount = 16, 8
+					pk := &kernels.HsaKernelDispatchPacket{WorkgroupSizeX: 64, WorkgroupSizeY: 1, WorkgroupSizeZ: 1, GridSizeX: 64, GridSizeY: 1, GridSizeZ: 1}
+					kernelOfPacket[pk] = i
+					// what EnqueueLaunchKernel enqueues last (its three preparatory H2D
+					// copies of code object, arguments and packet are left out: the
+					// environment's compute unit does not read them)
+					drv.Enqueue(queues[j.Queue], &driver.LaunchKernelCommand{ID: sim.GetIDGenerator().Generate(), CodeObject: co, Packet: pk})
+					continue
+				}
+				if j.H2D {
+					drv.EnqueueMemCopyH2D(queues[j.Queue], driver.Ptr(ptr+j.Off), hostBytes(i, j.Len))
+				} else {
+					outs[i] = make([]byte, j.Len)
+					drv.EnqueueMemCopyD2H(queues[j.Queue], outs[i], driver.Ptr(ptr+j.Off))
+				}
+			}
+			drv.TickLater()
+		}
+		enqueuePhase(0)
 
 		w.Step = func() bool {
 			pending := false
@@ -535,6 +556,10 @@ func Body(c Cfg) explore.Body {
 			return pending
 		}
 		quiet, pmsg := runGuarded(w)
+		for ph := 1; ph <= phases && quiet && pmsg == "" && viol == nil; ph++ {
+			enqueuePhase(ph)
+			quiet, pmsg = runGuarded(w)
+		}
 		if viol != nil {
 			return viol // what the monitors saw first explains a later panic
 		}
@@ -735,6 +760,12 @@ func Scenarios(thorough bool) []harness.Scenario {
 		Jobs: []Job{{Queue: 0, Kernel: true, Off: 0, Len: 70}, {Queue: 1, Kernel: true, Off: 256, Len: 66}, {Queue: 0, Off: 0, Len: 70}, {Queue: 1, Off: 255, Len: 68}}}, bound)
 	add(Cfg{Name: "b/1gpu/sibling-contexts/kernel-then-d2h", NGPU: 1, Pages: 1, MaxReq: 4, QueueCtx: []int{0, 1},
 		Jobs: []Job{{Queue: 0, Kernel: true, Off: 3, Len: 61}, {Queue: 1, Kernel: true, Off: 128, Len: 64}, {Queue: 0, Off: 3, Len: 61}, {Queue: 1, Off: 128, Len: 64}}}, bound)
+	// sustained back-pressure below the DMA engine: copies of more transactions than the engine's outgoing buffer
+	// holds (64) against a memory that takes one transaction per 4 cycles; two queues keep several requests in flight
+	add(Cfg{Name: "b/1gpu/slow-memory4/8KiB-page", NGPU: 1, Pages: 1, MaxReq: 4, Log2Page: 13, SlowMem: 4,
+		Jobs: []Job{{Queue: 0, H2D: true, Off: 0, Len: 8192}, {Queue: 0, H2D: false, Off: 0, Len: 8192}}}, 1)
+	add(Cfg{Name: "b/2gpu/slow-memory3/two-queues/8KiB-pages", NGPU: 2, Pages: 2, MaxReq: 4, Log2Page: 13, SlowMem: 3,
+		Jobs: []Job{{Queue: 0, H2D: true, Off: 100, Len: 8192}, {Queue: 1, H2D: true, Off: 8192 + 300, Len: 6000}, {Queue: 0, H2D: false, Off: 90, Len: 8200}, {Queue: 1, H2D: false, Off: 8192 + 290, Len: 6010}}}, 0)
 	if thorough {
 		add(Cfg{Name: "b/2gpu/two-queues/kernel-then-d2h-then-h2d/page-crossing", NGPU: 2, Pages: 2, MaxReq: 2, QueueCtx: []int{0, 1},
 			Jobs: []Job{{Queue: 0, Kernel: true, Off: BPage - 40, Len: 80}, {Queue: 1, Kernel: true, Off: 512, Len: 64}, {Queue: 0, Off: BPage - 40, Len: 80},
@@ -781,6 +812,24 @@ func QueueScenarios(thorough bool) []harness.Scenario {
 		Jobs: []Job{{Queue: 0, Kernel: true, Off: 3, Len: 61}, {Queue: 1, Kernel: true, Off: 128, Len: 64}, {Queue: 0, Off: 3, Len: 61}, {Queue: 1, Off: 128, Len: 64}}}, bound)
 	add(Cfg{Name: "q/2gpu/two-queues/kernel-then-d2h/page-crossing", NGPU: 2, Pages: 2, MaxReq: 2,
 		Jobs: []Job{{Queue: 0, Kernel: true, Off: BPage - 8, Len: 16}, {Queue: 1, Kernel: true, Off: 512, Len: 8}, {Queue: 0, Off: BPage - 8, Len: 16}, {Queue: 1, Off: 512, Len: 8}}}, bound)
+	// a queue that has already executed some commands receives a backlog longer than any small power of two before
+	// the simulation dequeues again: every command still takes effect in submission order (each read-back returns
+	// the write just before it). Warm-up and backlog lengths sweep around 16, 32 and 64.
+	for _, warm := range []int{1, 3, 5, 15} {
+		for _, backlog := range []int{17, 20, 33, 40, 70} {
+			if !thorough && (warm == 5 || backlog == 20 || backlog == 70) {
+				continue
+			}
+			var jobs []Job
+			for i := 0; i < warm; i++ {
+				jobs = append(jobs, Job{Queue: 0, H2D: true, Off: 64, Len: 4})
+			}
+			for i := 0; i < backlog; i++ {
+				jobs = append(jobs, Job{Queue: 0, H2D: i%2 == 0, Off: 0, Len: 8, Phase: 1})
+			}
+			add(Cfg{Name: fmt.Sprintf("q/1gpu/one-queue/%d-executed-then-backlog-of-%d", warm, backlog), NGPU: 1, Pages: 1, MaxReq: 4, NoStall: true, NoDelays: true, Jobs: jobs}, 0)
+		}
+	}
 	if thorough {
 		add(Cfg{Name: "q/1gpu/three-queues/kernel-then-d2h", NGPU: 1, Pages: 1, MaxReq: 4, QueueCtx: []int{0, 0, 1},
 			Jobs: []Job{{Queue: 0, Kernel: true, Off: 0, Len: 8}, {Queue: 1, Kernel: true, Off: 128, Len: 8}, {Queue: 2, Kernel: true, Off: 256, Len: 8},
